@@ -50,6 +50,11 @@ def Tab.insert (t : Tab) : Tab :=
   if t.len < capOf t.buckets then { t with len := t.len + 1 }
   else { buckets := if t.buckets = 0 then 4 else 2 * t.buckets, len := t.len + 1, gen := t.gen + 1 }
 
+/-- the insertions (1-based, up to the n-th) at which the bucket array is (re)allocated -/
+def growthPoints (n : Nat) : List Nat :=
+  (List.range n).filter (fun i => (Nat.repeat Tab.insert i ({} : Tab)).gen != (Nat.repeat Tab.insert (i + 1) ({} : Tab)).gen)
+    |>.map (· + 1)
+
 /-- an address baked into the code -/
 inductive Addr
   | heap (c : Nat)            -- the allocation owned by constant c's `RotoConstant`
